@@ -69,6 +69,8 @@ class Ops:
       return v
     if isinstance(v, SV) and isinstance(v.sort, Union) and not isinstance(sort, Union) and not self.spec_mode:
       return self.coerce(self.unwrap(v), sort)
+    if v is NONEV and isinstance(sort, Opaque) and sort.nullable:
+      return SV(sort, sort.literal(None))
     if isinstance(v, Lit):
       if isinstance(sort, Opaque):
         return SV(sort, sort.literal(v.py))
@@ -245,6 +247,10 @@ class Ops:
         n = len(a)
         return z3.And(sb.len(b.t) == n, *[self.py_eq(x, SV(sb.elem, sb.get(b.t, i))) for i, x in enumerate(a)])
       return zbool(False)
+    if a is NONEV and isinstance(sb, Opaque) and sb.nullable:
+      return b.t == sb.literal(None)
+    if b is NONEV and isinstance(sa, Opaque) and sa.nullable:
+      return a.t == sa.literal(None)
     if sa is None or sb is None:
       raise OutsideSubset(f'== between {a!r} and {b!r}')
     a, b = self.lift(a), self.lift(b)
@@ -308,6 +314,8 @@ class Ops:
       o = a if b is NONEV else b
       if o is NONEV:
         return zbool(True)
+      if isinstance(o, SV) and isinstance(o.sort, Opaque) and o.sort.nullable:
+        return o.t == o.sort.literal(None)
       if isinstance(o, SV) and isinstance(o.sort, NoneSort):
         return zbool(True)
       return zbool(False)
